@@ -190,8 +190,8 @@ pub fn directed_shapes(r: &mut StdRng) -> Vec<(String, Vec<Vec<u8>>)> {
     out.push((
         "long-pair".into(),
         sort_dedup(vec![
-            (0..2000).map(|i| (i % 251) as u8).collect(),
-            (0..2000).map(|i| if i == 1999 { 7 } else { (i % 251) as u8 }).collect(),
+            (0..700).map(|i| (i % 251) as u8).collect(),
+            (0..700).map(|i| if i == 699 { 7 } else { (i % 251) as u8 }).collect(),
         ]),
     ));
     out.push(("affix".into(), affix_keys(r, 12, 8)));
